@@ -191,7 +191,11 @@ def harness_signatures(g, tier):
     if len(ovs) < 2:
         ovs = ["A" * g.ov, "C" * g.ov][:2]
     a, b = ovs[0], ovs[1]
-    sigs = [(a, b), ("N" * g.ov, b), (a, "N" * g.ov), ("N" * g.ov, "N" * g.ov)]
+    sigs = [(a, b), ("N" * g.ov, b), (a, "N" * g.ov), ("N" * g.ov, "N" * g.ov),
+            (a, a), (a, rm.revcomp(a)), (rm.revcomp(b), b)]            # equal / reverse-complementary signature pairs
+    pal = {2: "AT", 4: "GTAC", 6: "GTATAC"}.get(g.ov)
+    if pal:
+        sigs += [(pal, b), (a, pal)]                                    # palindromic signature word
     codes = "RN" if tier == "quick" else IUPAC_DEGENERATE
     for i in range(g.ov):
         for c in codes:
